@@ -114,7 +114,7 @@ static struct cat_io_interface io_if;
 static struct cat_mutex_interface mtx_if;
 static struct cat_command_group *groups[MAXG];
 static struct cat_command_group **group_ptrs;
-static int ngroups, ncmds;
+static int ngroups, ncmds, ntab;    /* cmds[ntab..] are unregistered command descriptors */
 static int group_disable[MAXG], group_first[MAXG], group_n[MAXG];
 static char *group_name[MAXG];
 static struct hcmd cmds[MAXC];
@@ -737,8 +737,9 @@ static void teardown(void)
         free(at); at = NULL;
         free(snap_entry); free(snap_unlock); snap_entry = snap_unlock = NULL;
         free(half_copy); half_copy = NULL;
+        for (int i = ntab; i < ncmds; i++) free(cmds[i].c);
         memset(cmds, 0, sizeof cmds);
-        ngroups = ncmds = 0;
+        ngroups = ncmds = ntab = 0;
         in_head = in_tail = rd_head = rd_tail = wr_head = wr_tail = 0; outcap_len = 0;
         lock_n = unlock_n = 0; nlock_s = nunlock_s = 0;
         use_mutex = 0; fill_byte = 0; grain_step = 1; compact = 0; autoq[0] = 0;
@@ -748,9 +749,9 @@ static void teardown(void)
 
 static void emit_cfg(void)
 {
-        fprintf(out, "{\"e\":\"cfg\",\"sid\":%ld,\"qcap\":%d,\"acap\":%zu,\"ucap\":%zu,\"shared\":%s,\"mutex\":%s,\"step\":%s,\"fill\":%d,\"groups\":[",
+        fprintf(out, "{\"e\":\"cfg\",\"sid\":%ld,\"qcap\":%d,\"acap\":%zu,\"ucap\":%zu,\"shared\":%s,\"mutex\":%s,\"step\":%s,\"fill\":%d,\"ntab\":%d,\"groups\":[",
                 sid, (int)CAT_UNSOLICITED_CMD_BUFFER_SIZE, acap, ucap, usize < 0 ? "true" : "false", use_mutex ? "true" : "false",
-                grain_step ? "true" : "false", fill_byte);
+                grain_step ? "true" : "false", fill_byte, ntab);
         for (int g = 0; g < ngroups; g++) {
                 evlen = 0;
                 if (group_name[g]) ev_bytes((uint8_t *)group_name[g], strlen(group_name[g])); else ev_printf("[]");
@@ -762,7 +763,7 @@ static void emit_cfg(void)
                 struct hcmd *h = &cmds[i];
                 evlen = 0; ev_bytes((uint8_t *)h->name, strlen(h->name));
                 fprintf(out, "%s{\"name\":%s,\"group\":%d,\"hw\":%s,\"hr\":%s,\"hx\":%s,\"ht\":%s,\"need_all\":%s,\"only_test\":%s,\"disable\":%s,\"implicit\":%s,",
-                        i ? "," : "", evbuf, h->group, h->has[0] ? "true" : "false", h->has[1] ? "true" : "false", h->has[2] ? "true" : "false", h->has[3] ? "true" : "false",
+                        i ? "," : "", evbuf, h->group < 0 ? 0 : h->group, h->has[0] ? "true" : "false", h->has[1] ? "true" : "false", h->has[2] ? "true" : "false", h->has[3] ? "true" : "false",
                         h->need_all ? "true" : "false", h->only_test ? "true" : "false", h->disable ? "true" : "false", h->implicit ? "true" : "false");
                 evlen = 0;
                 if (h->desc) { ev_bytes((uint8_t *)h->desc, strlen(h->desc)); fprintf(out, "\"hasdesc\":true,\"desc\":%s,\"vars\":[", evbuf); }
@@ -808,6 +809,21 @@ static void finish_cfg(void)
                                 c->var = va;
                         } else c->var = NULL;
                 }
+        }
+        for (int i = ntab; i < ncmds; i++) {
+                struct hcmd *h = &cmds[i];
+                struct cat_command *c = calloc(1, sizeof *c);
+                h->c = c;
+                c->name = h->name; c->description = h->desc;
+                c->write = h->has[0] ? h_write : NULL; c->read = h->has[1] ? h_read : NULL;
+                c->run = h->has[2] ? h_run : NULL; c->test = h->has[3] ? h_test : NULL;
+                c->need_all_vars = h->need_all; c->only_test = h->only_test; c->disable = h->disable; c->implicit_write = h->implicit;
+                c->var_num = (size_t)h->nvars;
+                if (h->nvars) {
+                        struct cat_variable *va = calloc((size_t)h->nvars, sizeof *va);
+                        for (int j = 0; j < h->nvars; j++) { va[j] = *h->vars[j].v; free(h->vars[j].v); h->vars[j].v = &va[j]; }
+                        c->var = va;
+                } else c->var = NULL;
         }
         buf_alloc = malloc(bufsize + 2 * CANARY); memset(buf_alloc, CANARY_BYTE, bufsize + 2 * CANARY);
         buf = buf_alloc + CANARY; memset(buf, 0xEE, bufsize);
@@ -877,12 +893,15 @@ static void process_line(char *line)
                         group_name[ngroups] = (n > 2 && strcmp(tok[2], "-")) ? (!strcmp(tok[2], "E") ? calloc(1, 1) : (char *)unhex(tok[2], &l)) : NULL;
                         ngroups++;
                 }
-                else if (!strcmp(op, "cmd")) {
+                else if (!strcmp(op, "cmd") || !strcmp(op, "xcmd")) {
+                        /* xcmd: a command descriptor that is NOT registered in any group (only usable with the trigger functions) */
+                        int ext = op[0] == 'x';
                         if (ngroups == 0) die("cmd before group");
                         if (ncmds >= MAXC) die("too many cmds");
                         if (n < 11) die("cmd: need 10 fields");
+                        if (!ext && ncmds > 0 && cmds[ncmds - 1].group < 0) die("cmd after xcmd");
                         struct hcmd *h = &cmds[ncmds++]; size_t l;
-                        h->group = ngroups - 1; group_n[ngroups - 1]++;
+                        if (ext) h->group = -1; else { h->group = ngroups - 1; group_n[ngroups - 1]++; ntab = ncmds; }
                         h->name = (char *)unhex(tok[1], &l);
                         if (!strcmp(tok[2], "-")) h->desc = NULL;
                         else if (!strcmp(tok[2], "E")) h->desc = calloc(1, 1);
